@@ -8,6 +8,7 @@ import (
 	"bufio"
 	"fmt"
 	"io"
+	"os"
 	"os/exec"
 	"strconv"
 	"strings"
@@ -32,9 +33,10 @@ type Solver struct {
 	Time    time.Duration
 	log     *strings.Builder // when non-nil, everything sent is logged (for cross-checking)
 	dead    bool
+	logAll  bool
 }
 
-func StartSolver(kind SolverKind, timeoutMs int) (*Solver, error) {
+func StartSolver(kind SolverKind, timeoutMs int, logic string) (*Solver, error) {
 	var cmd *exec.Cmd
 	switch kind {
 	case Z3:
@@ -57,10 +59,16 @@ func StartSolver(kind SolverKind, timeoutMs int) (*Solver, error) {
 		return nil, err
 	}
 	s := &Solver{kind: kind, cmd: cmd, in: in, out: bufio.NewReaderSize(outp, 1<<16), timeout: timeoutMs}
+	if logic == "" {
+		logic = "ALL"
+	}
 	if kind == CVC5 {
-		s.send("(set-logic ALL)\n")
+		s.send("(set-logic " + logic + ")\n")
 	} else {
 		s.send(fmt.Sprintf("(set-option :timeout %d)\n", timeoutMs))
+		if logic != "ALL" {
+			s.send("(set-logic " + logic + ")\n")
+		}
 	}
 	return s, nil
 }
@@ -75,9 +83,14 @@ func (s *Solver) Close() {
 	s.cmd = nil
 }
 
+var solverLogFile *os.File
+
 func (s *Solver) send(text string) {
 	if s.log != nil {
 		s.log.WriteString(text)
+	}
+	if solverLogFile != nil && s.logAll {
+		solverLogFile.WriteString(text)
 	}
 	if _, err := io.WriteString(s.in, text); err != nil {
 		s.dead = true
@@ -101,9 +114,16 @@ func (r SatResult) String() string { return [...]string{"sat", "unsat", "unknown
 
 // Check runs check-sat and returns the verdict. Errors printed by the solver
 // since the last check are surfaced as Unknown with the message.
-func (s *Solver) Check() (SatResult, string) {
+func (s *Solver) Check() (SatResult, string) { return s.check("(check-sat)\n") }
+
+// CheckAssuming decides the current assertions plus one Boolean literal, without a scope.
+func (s *Solver) CheckAssuming(lit string) (SatResult, string) {
+	return s.check("(check-sat-assuming (" + lit + "))\n")
+}
+
+func (s *Solver) check(cmd string) (SatResult, string) {
 	t0 := time.Now()
-	s.send("(check-sat)\n")
+	s.send(cmd)
 	s.Queries++
 	defer func() { s.Time += time.Since(t0) }()
 	for {
